@@ -155,13 +155,46 @@ props["C16"]["manifest"] = {
     "technique": "Lean theorems on sorted emission and scheduler-independent ordering + N-process byte comparison of every CLI command",
 }
 
+PROGRAM_RULE = "(1) every repository source that check accepts as an executable (154 programs, most of them over the whole standard library) is linked by the real BuiltinRootLinker, the linked DynamicsProgram is serialised, the real Runtime is driven one public Eval::step at a time under a fuel bound with catch_unwind (a panic is classified into the stuck kinds of eval.rs/impls.rs, the arithmetic trap, or a host failure), and the Lean CK machine runs the same serialised program: outcome and output bytes are compared. (2) type-directed generated ZCore programs (nominal recursive data, codata, products, thunks, higher-order functions, fix, all of arith/compare/to_string at four integer widths, strings, write_line/exit; pairwise distinct literals and a digest of every bound integer and string; sizes 8-40) are printed as Zydeco source over the real lib/std/builtin.zy and as a token stream: the real pipeline's verdict, output and exit code are compared with the Lean ZCore model (checker + erasure + machine), and the real linked program is also run on the Lean machine. (3) two typed mutants per program from seven operators (argument type, returned type, unknown constructor, dropped arm, unknown destructor, branch type, non-integer operand) must be rejected by the real checker with the error class the model predicts; an accepted mutant is reported and run. Non-trivial = distinct requests."
+PROGRAM_TB = [KERNEL, AXIOMS, HARNESS,
+    "modelled, not verified: lang/dynamics/src/eval.rs (the CK machine, Assign, product flattening) is mirrored by ZV/Model/Machine.lean and compared step-budget for step-budget on every run; link.rs erasure is modelled on the ZCore fragment by ZV.ZCore.eraseC and tied behaviourally; the real checker (inference holes, F-omega normalisation, sealing, existential escape checks, copattern elaboration, packages) is compared with the model checker on the generated fragment, not proved sound",
+    "host operations: ZV/Model/Host.lean (C06)"]
 props["C01"] = {
-    "harness": "c01",
-    "level": "proof",
-    "nontrivial": r"^ck run ",
+    "harness": "c01", "level": "proof", "nontrivial": r"^(ck|zc) run ",
     "timeout": {"quick": 1500, "thorough": 7200},
-    "rule": "see explanation",
-    "explanation": "work in progress",
-    "trusted_base": [KERNEL, AXIOMS, HARNESS],
-    "assumptions": [],
+    "rule": PROGRAM_RULE,
+    "explanation": "Type safety is proved on the model: the statement `accepted_never_stuck` (every program the ZCore checker accepts never reaches an undefined state of the mirrored CK machine, for every input and every finite prefix) is kept in ZV/Props/C01Statements.lean and proved in ZV/Props/C01.lean when listed under `theorems`. The mirror machine is tied to eval.rs by running both on the same linked programs (all executable repository programs and generated ones); the model checker is tied to the real checker by acceptance/rejection classes on generated programs and typed mutants; every accepted program is run under the stuck-state monitor.",
+    "trusted_base": PROGRAM_TB,
+    "assumptions": ["programs outside ZCore (polymorphism, existentials, packages, blocks) are covered by the execution correspondence and the stuck-state monitor only"],
+}
+props["C01"]["manifest"] = {
+    "text": "The interpreter (eval.rs) is mirrored as a Lean CK machine whose undefined states are explicit, and validated against the real Runtime on every executable repository program and on generated programs (same linked program, same outcome and output). Type safety of accepted programs is stated and proved for ZCore (typed CBPV core: data, codata, products, thunks, functions, fix, integer and string primitives) over that machine; the real checker is tied to the ZCore checker by verdict classes on generated programs and typed mutants, and every accepted program runs under a stuck-state monitor.",
+    "note": "Trusted: Lean kernel and the three standard axioms; the harness/driver. The real 8,200-line checker is compared with the model checker on the generated fragment, not proved sound; features outside ZCore are covered by execution correspondence and the monitor only.",
+    "technique": "Lean CK-machine mirror + progress/preservation-style safety theorem on a typed core + three-way differential correspondence (real interpreter, Lean machine on the real linked program, Lean typed model) + typed mutants",
+}
+props["C02"] = {
+    "harness": "c01", "level": "proof", "nontrivial": r"^(ck|zc) run ",
+    "timeout": {"quick": 1500, "thorough": 7200},
+    "rule": PROGRAM_RULE,
+    "explanation": "The reference call-by-push-value semantics (big-step, environments, ZV.ZCore.evalRC) and the statements relating it to the mirrored machine after erasure (ref_to_machine, machine_to_ref, product flattening, fuel monotonicity) are kept in ZV/Props/C02Statements.lean and proved in ZV/Props/C02.lean when listed under `theorems`. The glue the theorems do not cover (desugaring of spines, binding sugar, copattern and block elaboration, real erasure) is covered by the end-to-end run of every generated program through the whole real pipeline against the model's result.",
+    "trusted_base": PROGRAM_TB,
+    "assumptions": ["host reads/writes go through in-memory streams; real file descriptors are not in the model"],
+}
+props["C02"]["manifest"] = {
+    "text": "Observable behaviour (output bytes, exit code / trap) of the real pipeline equals the Lean model's on every generated ZCore program and the mirrored machine equals the real interpreter on every executable repository program; the reference CBPV semantics and the simulation theorems between it and the machine (after type erasure) are stated in full and proved as they land.",
+    "note": "Trusted: Lean kernel and the three standard axioms; the harness/driver. Desugarer, resolver and checker elaboration are exercised end to end, not modelled.",
+    "technique": "Lean reference semantics + simulation theorem against the mirrored CK machine + end-to-end behavioural correspondence with order-sensitive generated programs",
+}
+props["C03"] = {
+    "harness": "c01", "level": "proof", "nontrivial": r"^zc run ",
+    "timeout": {"quick": 1500, "thorough": 7200},
+    "rule": PROGRAM_RULE,
+    "explanation": "The declared typing rules of the core language are an inductive relation (ZV.ZCore.HasTyC); the statements that the model checker is sound and complete for them, that types are unique and that whatever it rejects has no derivation are kept in ZV/Props/C03Statements.lean and proved in ZV/Props/C03.lean when listed under `theorems`. The model checker is tied to the real checker by comparing accept / reject-with-class on every generated well-typed program and every typed mutant.",
+    "trusted_base": PROGRAM_TB,
+    "assumptions": ["features outside ZCore (monadic blocks, package-dependent arrows, manifest kinds, polymorphism, existentials) are not covered by C03's model; generated programs are fully annotated"],
+}
+props["C03"]["manifest"] = {
+    "text": "On the ZCore fragment the checker's verdict is compared, program by program, with a Lean checker that is stated (and proved, as listed in the evidence) to decide exactly the declared rules: every generated well-typed program must be accepted and every typed mutant rejected with the predicted error class.",
+    "note": "Trusted: Lean kernel and the three standard axioms; the harness/driver. The correspondence, not a proof, relates the real 8,200-line checker to the model checker.",
+    "technique": "Lean declarative typing + sound/complete executable checker + acceptance correspondence on generated programs and typed mutants",
 }
